@@ -1,4 +1,18 @@
 // K-SEG: SegmentedCache contracts (C07, and C01/C02/C03/C12/C13 for this cache type).
+// Non-blocking check: Kani's `assert!` assumes its condition afterwards, so the first failing conjunct of a contract
+// would hide every later one on the same path (and with it the verdicts of the other properties that harness serves).
+// `ck!` performs the check on a nondeterministically chosen side branch, so every conjunct is reported independently.
+macro_rules! ck {
+    ($c:expr, $m:literal) => {
+        if kani::any::<bool>() {
+            assert!($c, $m);
+        }
+    };
+    ($c:expr) => {
+        assert!($c)
+    };
+}
+
 use super::*;
 use crate::verif_hooks::gen::{any_abs, build, N};
 use crate::verif_hooks::spec::*;
@@ -20,16 +34,16 @@ pub fn any_seg(maxcap: usize) -> (Seg, SegAbs) {
 
 macro_rules! seg_inv {
     ($s:expr, $wf:expr, $pre:expr, $post:expr) => {
-        assert!($wf, "[C03.wf] both segment lists are well-formed chains matching their indexes (nodes migrate between them)");
-        assert!($post.probationary.n <= $post.probationary.cap && $post.protected.n <= $post.protected.cap,
+        ck!($wf, "[C03.wf] both segment lists are well-formed chains matching their indexes (nodes migrate between them)");
+        ck!($post.probationary.n <= $post.probationary.cap && $post.protected.n <= $post.protected.cap,
             "[C01.cap] each segment stays within its configured bound");
-        assert!($post.probationary.cap == $pre.probationary_size && $post.protected.cap == $pre.protected_size
+        ck!($post.probationary.cap == $pre.probationary_size && $post.protected.cap == $pre.protected_size
             && $post.probationary_size == $pre.probationary_size && $post.protected_size == $pre.protected_size,
             "[C01.cap] segment capacities stay at their configured sizes");
-        assert!(partitioned(&[&$post.probationary, &$post.protected]), "[C01.partition] a key is held in at most one segment");
-        assert!($s.len() == $post.probationary.n + $post.protected.n && $s.len() <= $s.cap(), "[C01.len] len() counts the resident entries and never exceeds cap()");
-        assert!($s.is_empty() == ($post.probationary.n + $post.protected.n == 0), "[C01.empty] is_empty() iff nothing retained");
-        assert!($s.cap() == $pre.probationary_size + $pre.protected_size, "[C01.cap] cap() is the sum of the segment sizes");
+        ck!(partitioned(&[&$post.probationary, &$post.protected]), "[C01.partition] a key is held in at most one segment");
+        ck!($s.len() == $post.probationary.n + $post.protected.n && $s.len() <= $s.cap(), "[C01.len] len() counts the resident entries and never exceeds cap()");
+        ck!($s.is_empty() == ($post.probationary.n + $post.protected.n == 0), "[C01.empty] is_empty() iff nothing retained");
+        ck!($s.cap() == $pre.probationary_size + $pre.protected_size, "[C01.cap] cap() is the sum of the segment sizes");
     };
 }
 
@@ -62,22 +76,22 @@ fn seg_put() {
     seg_inv!(s, wf, pre, post);
     if in_protected {
         let i = pre.protected.pos(k).unwrap();
-        assert!(pr_of(&r) == PR::Update(pre.protected.v[i]), "[C12.result] put on a protected entry returns Update(old)");
-        assert!(post.protected.view_eq(&pre.protected.touch(i, Some(v))) && post.probationary == pre.probationary,
+        ck!(pr_of(&r) == PR::Update(pre.protected.v[i]), "[C12.result] put on a protected entry returns Update(old)");
+        ck!(post.protected.view_eq(&pre.protected.touch(i, Some(v))) && post.probationary == pre.probationary,
             "[C07.refresh][C02.value] a hit on a protected entry only refreshes it (and stores the value)");
     } else if in_probationary {
         let i = pre.probationary.pos(k).unwrap();
         let (epb, ept) = spec_promote(&pre, i, Some(v));
-        assert!(pr_of(&r) == PR::Update(pre.probationary.v[i]), "[C12.result][C07.promote] put on a probationary entry returns Update(old): nothing leaves the cache");
-        assert!(put_result_truthful(&[&pre.probationary, &pre.protected], &[&post.probationary, &post.protected], k, v, pr_of(&r)),
+        ck!(pr_of(&r) == PR::Update(pre.probationary.v[i]), "[C12.result][C07.promote] put on a probationary entry returns Update(old): nothing leaves the cache");
+        ck!(put_result_truthful(&[&pre.probationary, &pre.protected], &[&post.probationary, &post.protected], k, v, pr_of(&r)),
             "[C12.delta] the retained set changed exactly as the PutResult says");
-        assert!(post.protected.view_eq(&ept), "[C07.promote][C02.value] a put hit on a probationary entry promotes it to protected's most-recent end with the new value");
-        assert!(post.probationary.view_eq(&epb), "[C07.demote] protected's least-recent entry is demoted to probationary's most-recent end, never evicted");
+        ck!(post.protected.view_eq(&ept), "[C07.promote][C02.value] a put hit on a probationary entry promotes it to protected's most-recent end with the new value");
+        ck!(post.probationary.view_eq(&epb), "[C07.demote] protected's least-recent entry is demoted to probationary's most-recent end, never evicted");
     } else if is_new {
         let (epb, er) = spec_lru_put(&pre.probationary, k, v);
-        assert!(pr_of(&r) == er, "[C12.result][C07.evict] a new key evicts only probationary's least-recent entry, and only when probationary is full");
-        assert!(post.probationary.view_eq(&epb) && post.protected == pre.protected, "[C07.enter][C02.value] new keys enter probationary's most-recent end; protected untouched");
-        assert!(put_result_truthful(&[&pre.probationary, &pre.protected], &[&post.probationary, &post.protected], k, v, pr_of(&r)),
+        ck!(pr_of(&r) == er, "[C12.result][C07.evict] a new key evicts only probationary's least-recent entry, and only when probationary is full");
+        ck!(post.probationary.view_eq(&epb) && post.protected == pre.protected, "[C07.enter][C02.value] new keys enter probationary's most-recent end; protected untouched");
+        ck!(put_result_truthful(&[&pre.probationary, &pre.protected], &[&post.probationary, &post.protected], k, v, pr_of(&r)),
             "[C12.delta] the retained set changed exactly as the PutResult says");
     }
     s.verif_forget();
@@ -102,16 +116,16 @@ fn seg_get() {
     let (post, wf) = s.verif_check();
     seg_inv!(s, wf, pre, post);
     let nv = if mutable { Some(w) } else { None };
-    assert!(r == lookup(&[&pre.probationary, &pre.protected], k), "[C02.lookup] get/get_mut return exactly the stored value, None iff absent");
+    ck!(r == lookup(&[&pre.probationary, &pre.protected], k), "[C02.lookup] get/get_mut return exactly the stored value, None iff absent");
     if let Some(i) = pre.protected.pos(k) {
-        assert!(post.protected.view_eq(&pre.protected.touch(i, nv)) && post.probationary == pre.probationary,
+        ck!(post.protected.view_eq(&pre.protected.touch(i, nv)) && post.probationary == pre.probationary,
             "[C07.refresh][C02.write] a hit on a protected entry only refreshes it");
     } else if let Some(i) = pre.probationary.pos(k) {
         let (epb, ept) = spec_promote(&pre, i, nv);
-        assert!(post.protected.view_eq(&ept), "[C07.promote][C02.write] get/get_mut on a probationary entry promote it to protected's most-recent end");
-        assert!(post.probationary.view_eq(&epb), "[C07.demote] protected's least-recent entry is demoted to probationary's most-recent end, never evicted");
+        ck!(post.protected.view_eq(&ept), "[C07.promote][C02.write] get/get_mut on a probationary entry promote it to protected's most-recent end");
+        ck!(post.probationary.view_eq(&epb), "[C07.demote] protected's least-recent entry is demoted to probationary's most-recent end, never evicted");
     } else {
-        assert!(post == pre, "[C13.miss][C07.miss] a miss changes nothing");
+        ck!(post == pre, "[C13.miss][C07.miss] a miss changes nothing");
     }
     s.verif_forget();
 }
@@ -125,27 +139,27 @@ fn seg_readonly() {
     kani::cover!(pre.probationary.has(k), "seg peek: probationary hit");
     kani::cover!(!pre.probationary.has(k) && !pre.protected.has(k), "seg peek: miss");
     let want = lookup(&[&pre.probationary, &pre.protected], k);
-    assert!(s.peek(&k).copied() == want, "[C02.lookup] peek returns exactly the stored value, None iff absent");
-    assert!(s.peek_mut(&k).map(|x| *x) == want, "[C02.lookup] peek_mut hands out the stored value, None iff absent");
-    assert!(s.contains(&k) == want.is_some(), "[C02.lookup] contains agrees with residency");
-    assert!(s.peek_lru_from_probationary().map(|(a, b)| (*a, *b)) == pre.probationary.last()
+    ck!(s.peek(&k).copied() == want, "[C02.lookup] peek returns exactly the stored value, None iff absent");
+    ck!(s.peek_mut(&k).map(|x| *x) == want, "[C02.lookup] peek_mut hands out the stored value, None iff absent");
+    ck!(s.contains(&k) == want.is_some(), "[C02.lookup] contains agrees with residency");
+    ck!(s.peek_lru_from_probationary().map(|(a, b)| (*a, *b)) == pre.probationary.last()
         && s.peek_lru_mut_from_probationary().map(|(a, b)| (*a, *b)) == pre.probationary.last(),
         "[C07.accessors] peek_lru(_mut)_from_probationary name probationary's least-recent entry");
-    assert!(s.peek_mru_from_probationary().map(|(a, b)| (*a, *b)) == pre.probationary.first()
+    ck!(s.peek_mru_from_probationary().map(|(a, b)| (*a, *b)) == pre.probationary.first()
         && s.peek_mru_mut_from_probationary().map(|(a, b)| (*a, *b)) == pre.probationary.first(),
         "[C07.accessors] peek_mru(_mut)_from_probationary name probationary's most-recent entry");
-    assert!(s.peek_lru_from_protected().map(|(a, b)| (*a, *b)) == pre.protected.last()
+    ck!(s.peek_lru_from_protected().map(|(a, b)| (*a, *b)) == pre.protected.last()
         && s.peek_lru_mut_from_protected().map(|(a, b)| (*a, *b)) == pre.protected.last(),
         "[C07.accessors] peek_lru(_mut)_from_protected name protected's least-recent entry");
-    assert!(s.peek_mru_from_protected().map(|(a, b)| (*a, *b)) == pre.protected.first()
+    ck!(s.peek_mru_from_protected().map(|(a, b)| (*a, *b)) == pre.protected.first()
         && s.peek_mru_mut_from_protected().map(|(a, b)| (*a, *b)) == pre.protected.first(),
         "[C07.accessors] peek_mru(_mut)_from_protected name protected's most-recent entry");
-    assert!(s.protected_len() == pre.protected.n && s.probationary_len() == pre.probationary.n
+    ck!(s.protected_len() == pre.protected.n && s.probationary_len() == pre.probationary.n
         && s.protected_cap() == pre.protected_size && s.probationary_cap() == pre.probationary_size,
         "[C07.accessors][C01.len] per-segment len/cap accessors report the segment's own numbers");
     let (post, wf) = s.verif_check();
     seg_inv!(s, wf, pre, post);
-    assert!(post == pre, "[C13.readonly] peek, peek_mut (no write), contains, per-segment peeks and len/cap accessors leave every segment unchanged");
+    ck!(post == pre, "[C13.readonly] peek, peek_mut (no write), contains, per-segment peeks and len/cap accessors leave every segment unchanged");
     s.verif_forget();
 }
 
@@ -164,8 +178,8 @@ fn seg_peek_mut_write() {
     let mut exp = pre;
     if let Some(i) = pre.protected.pos(k) { exp.protected = pre.protected.with_val(i, w); }
     if let Some(i) = pre.probationary.pos(k) { exp.probationary = pre.probationary.with_val(i, w); }
-    assert!(post == exp, "[C02.write][C13.readonly] a write through peek_mut lands in that entry; order and everything else unchanged");
-    assert!(s.peek(&k).copied() == Some(w), "[C02.write] the written value is what later reads return");
+    ck!(post == exp, "[C02.write][C13.readonly] a write through peek_mut lands in that entry; order and everything else unchanged");
+    ck!(s.peek(&k).copied() == Some(w), "[C02.write] the written value is what later reads return");
     s.verif_forget();
 }
 
@@ -185,19 +199,19 @@ fn seg_remove_family() {
     match which {
         0 => {
             let r = s.remove(&k);
-            assert!(r == lookup(&[&pre.probationary, &pre.protected], k), "[C02.remove] remove hands back the stored value, None iff absent");
+            ck!(r == lookup(&[&pre.probationary, &pre.protected], k), "[C02.remove] remove hands back the stored value, None iff absent");
             if let Some(i) = pre.protected.pos(k) { exp.protected = pre.protected.remove_at(i); }
             if let Some(i) = pre.probationary.pos(k) { exp.probationary = pre.probationary.remove_at(i); }
-            assert!(!s.contains(&k), "[C02.absent] a removed key is no longer resident");
+            ck!(!s.contains(&k), "[C02.absent] a removed key is no longer resident");
         }
         1 => {
             let r = s.remove_lru_from_probationary();
-            assert!(r == pre.probationary.last(), "[C07.accessors] remove_lru_from_probationary returns probationary's least-recent pair");
+            ck!(r == pre.probationary.last(), "[C07.accessors] remove_lru_from_probationary returns probationary's least-recent pair");
             if pre.probationary.n > 0 { exp.probationary = pre.probationary.drop_last(); }
         }
         2 => {
             let r = s.remove_lru_from_protected();
-            assert!(r == pre.protected.last(), "[C07.accessors] remove_lru_from_protected returns protected's least-recent pair");
+            ck!(r == pre.protected.last(), "[C07.accessors] remove_lru_from_protected returns protected's least-recent pair");
             if pre.protected.n > 0 { exp.protected = pre.protected.drop_last(); }
         }
         _ => {
@@ -208,7 +222,7 @@ fn seg_remove_family() {
     }
     let (post, wf) = s.verif_check();
     seg_inv!(s, wf, pre, post);
-    assert!(post.probationary.view_eq(&exp.probationary) && post.protected.view_eq(&exp.protected),
+    ck!(post.probationary.view_eq(&exp.probationary) && post.protected.view_eq(&exp.protected),
         "[C07.remove][C02.map] remove/remove_lru_from_*/purge take out exactly the named entries, order of the rest kept");
     s.verif_forget();
 }
@@ -225,9 +239,9 @@ fn seg_put_protected() {
     let r = s.put_protected(k, v);
     let (post, wf) = s.verif_check();
     seg_inv!(s, wf, pre, post);
-    assert!(post.protected.val_of(k) == Some(v), "[C07.put_protected][C02.value] put_protected places the key in the protected segment with the value");
-    assert!(!post.probationary.has(k), "[C07.put_protected] ... and nowhere else");
-    assert!(put_result_truthful(&[&pre.probationary, &pre.protected], &[&post.probationary, &post.protected], k, v, pr_of(&r)),
+    ck!(post.protected.val_of(k) == Some(v), "[C07.put_protected][C02.value] put_protected places the key in the protected segment with the value");
+    ck!(!post.probationary.has(k), "[C07.put_protected] ... and nowhere else");
+    ck!(put_result_truthful(&[&pre.probationary, &pre.protected], &[&post.probationary, &post.protected], k, v, pr_of(&r)),
         "[C12.result][C12.delta] put_protected's PutResult tells the truth about the retained set");
     s.verif_forget();
 }
@@ -239,11 +253,11 @@ fn seg_clone_and_drop() {
     kani::cover!(pre.protected.n >= 2 && pre.probationary.n >= 1, "seg clone: populated");
     let c = s.clone();
     let cv = c.verif_abs();
-    assert!(c.verif_wf(), "[C03.wf][C16.wf] a cloned SegmentedCache is well formed");
-    assert!(cv == pre, "[C16.contents][C16.order][C17.maporder][C01.cap] a clone has the same configured sizes, contents, values and recency order in every segment");
+    ck!(c.verif_wf(), "[C03.wf][C16.wf] a cloned SegmentedCache is well formed");
+    ck!(cv == pre, "[C16.contents][C16.order][C17.maporder][C01.cap] a clone has the same configured sizes, contents, values and recency order in every segment");
     drop(c);
     let post = s.verif_abs();
-    assert!(post == pre && s.verif_wf(), "[C16.independent][C03.uaf] dropping the clone leaves the original intact");
+    ck!(post == pre && s.verif_wf(), "[C16.independent][C03.uaf] dropping the clone leaves the original intact");
     drop(s);
 }
 
@@ -253,7 +267,7 @@ fn seg_builder_sound() {
     let (s, a) = any_seg(N);
     kani::cover!(a.probationary.n == N && a.protected.n == N, "seg builder: both segments full");
     let (b, wf) = s.verif_check();
-    assert!(wf && b == a, "[C03.builder] every SegmentedCache state the builder produces is well formed with exactly the intended view");
+    ck!(wf && b == a, "[C03.builder] every SegmentedCache state the builder produces is well formed with exactly the intended view");
     s.verif_forget();
 }
 
@@ -268,11 +282,11 @@ fn seg_builder_finalize_contract() {
     let b = SegmentedCacheBuilder { probationary_size: pb, protected_size: pt, probationary_hasher: Some(PoisonHasher), protected_hasher: Some(PoisonHasher) };
     let r: Result<Seg, CacheError> = b.finalize();
     match r {
-        Err(e) => assert!((pb == 0 || pt == 0) && e == CacheError::InvalidSize(0), "[C05.ctor] Err(InvalidSize(0)) exactly when a segment size is 0"),
+        Err(e) => ck!((pb == 0 || pt == 0) && e == CacheError::InvalidSize(0), "[C05.ctor] Err(InvalidSize(0)) exactly when a segment size is 0"),
         Ok(c) => {
             let (a, wf) = c.verif_check();
-            assert!(pb != 0 && pt != 0 && wf, "[C05.ctor][C03.wf] construction succeeds exactly for two non-zero sizes");
-            assert!(a.probationary == Abs::empty(pb) && a.protected == Abs::empty(pt) && a.probationary_size == pb && a.protected_size == pt,
+            ck!(pb != 0 && pt != 0 && wf, "[C05.ctor][C03.wf] construction succeeds exactly for two non-zero sizes");
+            ck!(a.probationary == Abs::empty(pb) && a.protected == Abs::empty(pt) && a.probationary_size == pb && a.protected_size == pt,
                 "[C05.ctor][C01.cap] both segments are empty with their requested capacities, assigned to the right segment");
             c.verif_forget();
         }
@@ -308,14 +322,14 @@ fn seg_put_leakcheck() {
     drop(r);
     if hit {
         // the argument key equals a stored key: exactly one of the two objects is dropped, the other stays
-        assert!(drops(k) == 1, "[C04.once] on an update the surplus key object is dropped exactly once");
+        ck!(drops(k) == 1, "[C04.once] on an update the surplus key object is dropped exactly once");
         set_drops(k, 0);
     }
     let (post, wf) = s.verif_check();
-    assert!(wf, "[C03.wf] segments well formed after put with heap-tracked payloads");
-    assert!(conserved(created, ids_of(&[&post.probationary, &post.protected])), "[C04.once] after put/put_protected every key and value is retained, or was handed back, or was dropped exactly once (never twice, never while retained)");
+    ck!(wf, "[C03.wf] segments well formed after put with heap-tracked payloads");
+    ck!(conserved(created, ids_of(&[&post.probationary, &post.protected])), "[C04.once] after put/put_protected every key and value is retained, or was handed back, or was dropped exactly once (never twice, never while retained)");
     drop(s);
-    assert!(conserved(created, 0), "[C04.drop] dropping the cache releases every retained key and value exactly once");
+    ck!(conserved(created, 0), "[C04.drop] dropping the cache releases every retained key and value exactly once");
 }
 
 // ------------------------------------------------------------------ ownership with heap-owning values (C04), cheap variant:
@@ -347,13 +361,13 @@ fn seg_put_boxed_values() {
     };
     let pre = SegAbs { probationary: pb, protected: pt, probationary_size: pb.cap, protected_size: pt.cap };
     if let Some(x) = lookup(&[&pb, &pt], k) {
-        assert!(back == Some(x), "[C04.handback][C12.result] the old value handed back by an update is the stored one, still alive");
+        ck!(back == Some(x), "[C04.handback][C12.result] the old value handed back by an update is the stored one, still alive");
     }
     drop(r);
     let (post, wf) = s.verif_check();
-    assert!(wf, "[C03.wf] segments well formed with heap-owning values");
+    ck!(wf, "[C03.wf] segments well formed with heap-owning values");
     // every retained value is still readable (a value freed while retained is a use after free here)
-    assert!(lookup(&[&post.probationary, &post.protected], k) == Some(v), "[C04.alive][C02.value] the stored value is alive and is the one just put");
+    ck!(lookup(&[&post.probationary, &post.protected], k) == Some(v), "[C04.alive][C02.value] the stored value is alive and is the one just put");
     let _ = pre;
     s.verif_forget();
 }
